@@ -170,7 +170,8 @@ def materialise(pack, seed, vote_scale=3, exact_boundaries=True, ballast_rep=26,
                         postal_code=_state(p, u["fstate"]),
                         geographic_unit_fips=fid,
                         results_turnout=t,
-                        results_dem=dem,
+                        # a missing result for ANOTHER requested estimand (multi-estimand runs only)
+                        results_dem=float("nan") if u.get("nullRes") else dem,
                         results_gop=gop,
                         percent_expected_vote=pev,
                     )
@@ -232,10 +233,14 @@ def run_pack(pack, estimator, seed, pis=(0.7, 0.9), extra_mp=None, client=None, 
 
 
 def _run_client(pre, cur, setup, office, pis, gut, aggregates, estimator, sc0, mp, client, kw):
+    estimands = setup["estimands"]
+    if sc0.get("multiEst"):
+        assert estimator != "bootstrap"
+        estimands = ("dem", "turnout")  # the estimand with the missing values is not the last one
     return synth.run_client(
         pre,
         cur,
-        estimands=setup["estimands"],
+        estimands=estimands,
         office=office,
         pis=pis,
         thr=THR,
@@ -289,7 +294,7 @@ class Projection:
 
     def __init__(self, pack, res, meta, estimator, pis, vote_scale=3):
         self.pack, self.res, self.meta, self.estimator, self.pis = pack, res, meta, estimator, list(pis)
-        self.est = EST_SETUP[estimator]["estimands"][0]
+        self.est = "margin" if estimator == "bootstrap" else "turnout"
         self.scale = 1 if self.est == "margin" else vote_scale
         self.errors = []
         ut = res["unit_data"]
@@ -396,7 +401,8 @@ def mk_unit(i, k, st, co, cl, di, idc, idd, votes):
         "district": NA if isx else di,
         "idCounty": idc if isx else co,
         "idDistrict": idd if isx else di,
-        "rep": k in ("rep", "blkRep", "zeroRep", "tfRep", "rep0", "blkZero", "mismatch", "unexpRep"),
+        "rep": k in ("rep", "blkRep", "zeroRep", "tfRep", "rep0", "blkZero", "mismatch", "unexpRep", "nullOther"),
+        "nullRes": k == "nullOther",
         "votes": v,
         "blockUnit": k in ("blkRep", "blkNon", "blkZero"),
         "zeroBase": k in ("zeroRep", "zeroNon", "blkZero"),
@@ -422,14 +428,14 @@ LEVEL_LISTS = [
 ]
 
 
-def random_scenario(rnd, n_units, policy, district_office, levels, allow_mismatch=False, p_weird=0.45):
+def random_scenario(rnd, n_units, policy, district_office, levels, allow_mismatch=False, p_weird=0.45, multi_est=False):
     units = []
     counties = ["c1", "c2", "c3"]
     # district names of which one is a prefix of another ("1", "10"): joined names then sort differently from key tuples
     dists, new_d = (["1", "10"], "2") if rnd.random() < 0.5 else (["d1", "d2"], "d9")
     for i in range(1, n_units + 1):
         if rnd.random() < p_weird:
-            k = rnd.choice(KINDS[1:] + XKINDS + XKINDS + (["mismatch"] if allow_mismatch else []))
+            k = rnd.choice(KINDS[1:] + XKINDS + XKINDS + (["mismatch"] if allow_mismatch else []) + (["nullOther"] * 3 if multi_est else []))
         else:
             k = rnd.choice(["rep", "rep", "part"])
         votes = rnd.randrange(1, 400) * 4  # multiples of 4 so that factor-1/4 baselines are integral
@@ -458,6 +464,7 @@ def random_scenario(rnd, n_units, policy, district_office, levels, allow_mismatc
         "optT": False,
         "optM": False,
         "isMargin": False,
+        "multiEst": bool(multi_est),
         "units": units,
     }
 
@@ -465,7 +472,7 @@ def random_scenario(rnd, n_units, policy, district_office, levels, allow_mismatc
 def _rep_expected(sc, u):
     """reporting expected row of the joined data (before non-modelled units are removed), as Ledger.RepExpected"""
     matched = u["inBase"] and u["inFeed"] and u["bstate"] == u["fstate"]
-    return bool(matched and u["rep"])
+    return bool(matched and u["rep"] and not u.get("nullRes"))
 
 
 def trace_of(pack, res, meta, estimator, pis):
